@@ -337,8 +337,6 @@ def b_sorted(I, rl, kw):
 
 def slice_(I, rl, lo, hi):
     ctx = I.ctx
-    if hi is not None:
-        raise Unsupported("forest: slice with an upper bound")
     dom = rl.fields["dom"]
     if not dom["contig"] or rl.fields["rev"] or not rl.fields["mem"].eq(dom["univ"]):
         raise Unsupported("forest: slice of a list whose positions are not known to be 0..n-1")
@@ -346,9 +344,14 @@ def slice_(I, rl, lo, hi):
     i = pyops.int_z(lo) if lo is not None else z3.IntVal(0)
     start = z3.If(i < 0, z3.If(n + i > 0, n + i, z3.IntVal(0)), z3.If(i < n, i, n))
     a = ctx.fresh_int("bv")
-    mem2 = z3.Lambda([a], z3.And(z3.Select(rl.fields["mem"], a), z3.Select(dom["pos"], a) >= start))
-    ctx.use("T-py/list: l[i:] keeps the elements at positions >= (i if i>=0 else max(len+i,0))")
-    return mk_reflist(ctx, rl.fields["cls"], mem2, dom, n - start, label=f"{rl.label}[{lo}:]")
+    if hi is None:
+        stop = n
+    else:
+        j = pyops.int_z(hi)
+        stop = z3.If(j < 0, z3.If(n + j > 0, n + j, z3.IntVal(0)), z3.If(j < n, j, n))
+    mem2 = z3.Lambda([a], z3.And(z3.Select(rl.fields["mem"], a), z3.Select(dom["pos"], a) >= start, z3.Select(dom["pos"], a) < stop))
+    ctx.use("T-py/list: l[i:j] keeps the elements at positions clamp(i) <= p < clamp(j) (negative indices count from the end)")
+    return mk_reflist(ctx, rl.fields["cls"], mem2, dom, z3.If(stop > start, stop - start, z3.IntVal(0)), label=f"{rl.label}[{lo}:{hi}]")
 
 
 def m_append(I, rl, args, kw):
@@ -414,6 +417,15 @@ def addr_of(I, rl, x):
             I.heap_set(SRef(cls, addr), a, x.fields[a])
         x.fields["__addr__"] = (cls, addr)
         return addr
+    conv = ctx.ghost.get("forest_convert", {}).get(cb)
+    if conv is not None:
+        fields = conv(I, x)
+        if fields is not None:
+            addr = ctx.fresh_int(f"{cb}_addr")
+            ctx.assume(z3.Not(z3.Select(rl.fields["mem"], addr)))
+            for a, v in fields.items():
+                I.heap_set(SRef(cls, addr), a, v)
+            return addr
     raise Unsupported(f"forest: cannot store {type(x).__name__} into a reflist")
 
 
